@@ -185,3 +185,8 @@ def run(F, res, tier):
         res.ob("G3", "%s-members-handled" % setname,
                "every member of %s is handled by %s() (a member without an arm would be accepted by the guard and then not consumed)" % (setname, fnname),
                not dead, where=fn.loc(ln), how="all handled" if not dead else "in the set without an arm: %s" % sorted(dead))
+
+
+def thorough(F, res):
+    from lib import pcache as _pc
+    _pc.crosscheck(F, res)
